@@ -227,6 +227,40 @@ def run(world, rep, tier, only=None):
                         stops(bid, si, "unknown block type")
         rep.ob("C03.c", site(dop, "scan-stop tests present" + tag), found == {"magic", "sequence", "default"},
                "magic, sequence and default-arm tests found: %s" % sorted(found))
+        # ------------------------------------------------------------------ C03.g the v1 running checksum starts afresh for every transaction
+        # With the old-style (COMPAT_CHECKSUM) journal the scan accumulates a crc32 over the blocks of a transaction
+        # and compares it at the commit block.  Whatever makes the scan accept the commit block and move on to the
+        # next transaction must also reset the accumulator, or the next - intact - transaction cannot match.
+        acc = [n for n in dop.events("S") if T.path(n.ev["lhs"]) == "crc32_sum" and n.ev.get("o") == "="]
+        v1 = {}
+        for bid in dop.blocks:
+            lit = dop.literal(bid)
+            if lit and any(cc.get("fn") == "jbd2_has_feature_checksum" for cc in T.calls(lit[0])):
+                v1[dop.block_end(bid)] = lit[1]
+        nexts = [n for n in dop.events("S") if T.path(n.ev["lhs"]) == "next_commit_ID" and n.ev.get("o") in ("++", "+=")]
+        rep.floor("C03.g accumulator resets / v1 tests / transaction advance" + tag, min(len(acc), len(v1), len(nexts)), 1)
+        for end_, pos in v1.items():
+            si = 0 if pos else 1
+            starts = [m for (m, i_) in dop.succ(end_) if i_ == si]
+            joins = [m for (m, i_) in dop.succ(end_) if i_ != si]
+            # only the test in the commit-block arm: the one whose arm contains a reset at all
+            hb0 = loop_head(dop, end_)
+            arm = dop.reach(starts, avoid=joins + ([dop.node(hb0, 0)] if hb0 is not None else []))
+            if not any(a_ in arm for a_ in acc):
+                rep.examined()
+                continue
+            # a commit block whose checksum does not match is not accepted (chksum_error records the failure),
+            # nor is one seen after a failure (break): accepted = falling out of the arm to the code after it
+            ce = dop.label_block("chksum_error")
+            cut = [dop.node(ce, 0)] if ce is not None else []
+            hb = loop_head(dop, end_)
+            if hb is not None:
+                cut.append(dop.node(hb, 0))     # one block of the log at a time
+            r = dop.reach(starts, avoid=acc + cut + [end_])
+            leak = [m for m in joins if m in r]
+            rep.ob("C03.g", site(dop, "accepted v1 commit block resets the running checksum" + tag), not leak,
+                   "every path through the jbd2_has_feature_checksum() arm that falls out of it (commit block accepted) stores "
+                   "crc32_sum = ~0")
         # non-SCAN descriptor checksum failure fails the pass
         dv = [b for b in dop.blocks if dop.literal(b) and call_atom("jbd2_descriptor_block_csum_verify")(dop.literal(b)[0])]
         rep.ob("C03.c", site(dop, "descriptor checksum verified" + tag), bool(dv), "jbd2_descriptor_block_csum_verify controls a branch")
